@@ -241,14 +241,14 @@ func (c *Config) flattenedKeys(opts *options) []string {
 		}
 	}
 
-	if c.IsDict() {
-		for _, v := range c.fields.dict() {
-			visit(v)
-		}
-	} else if c.IsArray() {
-		for _, a := range c.fields.array() {
-			visit(a)
-		}
+	// (both parts: a configuration whose named settings have all been removed
+	// still "is a dictionary", and a configuration can hold named and indexed
+	// settings at once)
+	for _, v := range c.fields.dict() {
+		visit(v)
+	}
+	for _, a := range c.fields.array() {
+		visit(a)
 	}
 	return keys
 }
